@@ -40,6 +40,9 @@ def workdir(pid):
     shutil.rmtree(d, ignore_errors=True)
     os.makedirs(d, exist_ok=True)
     os.makedirs(REPLAYS, exist_ok=True)
+    for f in os.listdir(REPLAYS):
+        if f.startswith(pid + "-"):
+            os.remove(os.path.join(REPLAYS, f))
     return d
 
 
@@ -274,6 +277,9 @@ class Verdict:
             if f["status"] == "known" and f["tag"] == tag and f.get("site", site) == site and \
                     f.get("scenario", scenario) == scenario:
                 self.known_hits[f["id"]] = self.known_hits.get(f["id"], 0) + 1
+                if self.known_hits[f["id"]] == 1:
+                    json.dump({"property": self.pid, "finding": f["id"], "what": what, "replay": replay},
+                              open(os.path.join(REPLAYS, "%s-known-%s.json" % (self.pid, f["id"])), "w"), indent=1)
                 return "known"
         key = (tag, site, scenario)
         if key not in self.seen_keys:
